@@ -160,8 +160,8 @@ MIXED_KEY = "MyTag"  # keys are stored as given: a mixed-case key is a key of it
 FOREIGN_ALIAS = {"STOPS": "FREEZES", "BGCHANGES": "ANIMATIONS", "NOTES": "NOTES2"}
 
 
-def ops_for(std, alias, other, values, extra_key=None):
-    keys = [std] + ([alias] if alias else []) + ([extra_key] if extra_key else []) + [other, MIXED_KEY]
+def ops_for(std, alias, other, values, extra_key=None, mixed=None):
+    keys = [std] + ([alias] if alias else []) + ([extra_key] if extra_key else []) + [other, mixed or MIXED_KEY]
     ops = [("aget",), ("adel",)] + [("aset", v) for v in values]
     for k in keys:
         ops += [("kget", k), ("kdel", k), ("kin", k)] + [("kset", k, v) for v in values]
@@ -184,12 +184,12 @@ def initial_states(std, alias, other, extra_key=None):
     return out
 
 
-def explore_property(acc, kind, attr, std, alias, values, layer, bare_start=False):
+def explore_property(acc, kind, attr, std, alias, values, layer, bare_start=False, mixed=None):
     other = KINDS[kind][1]
     extra_key = FOREIGN_ALIAS.get(std) if not alias else None
     if extra_key == other:
         extra_key = None
-    ops = ops_for(std, alias, other, values, extra_key)
+    ops = ops_for(std, alias, other, values, extra_key, mixed)
     seen = set()
     frontier = []
     for st in initial_states(std, alias, other, extra_key):
@@ -227,7 +227,7 @@ def explore_property(acc, kind, attr, std, alias, values, layer, bare_start=Fals
     return len(seen)
 
 
-def tour_property(acc, kind, attr, std, alias, values, layer):
+def tour_property(acc, kind, attr, std, alias, values, layer, mixed=None):
     """
     Transition tour: the same closed state graph, but walked on ONE live object.  Every (state, operation) pair of
     the graph is executed at least once in a single uninterrupted history (untaken operations first, else the
@@ -239,7 +239,7 @@ def tour_property(acc, kind, attr, std, alias, values, layer):
     extra_key = FOREIGN_ALIAS.get(std) if not alias else None
     if extra_key == other:
         extra_key = None
-    ops = ops_for(std, alias, other, values, extra_key)
+    ops = ops_for(std, alias, other, values, extra_key, mixed)
     # the model graph reachable from the empty mapping
     succ = {}
     todo = [()]
@@ -668,6 +668,14 @@ def check_smchart_state(state, how):
     same_order = list(dict.keys(ch)) == list(dict.keys(other))
     if not (ch == other) or (same_order and (ch != other)):
         return [{"clause": "SM charts with the same six fields do not compare equal", "expected": "equal", "observed": "not equal"}]
+    # ... and a chart that differs in one field only - by letter case, by one more character - is a different chart
+    for i, v in enumerate(state):
+        for v2 in {v.swapcase(), v + "x", v[:-1]} - {v}:
+            if v2 != v2.strip():
+                continue
+            near = smchart_from(tuple(state[:i]) + (v2,) + tuple(state[i + 1:]), how)
+            if ch == near:
+                return [{"clause": "SM charts that differ in one field compare equal", "expected": "not equal", "observed": {"field": FIELDS[i], "values": [v, v2]}}]
     return []
 
 
@@ -721,9 +729,12 @@ def check_case(case):
 def explore_shard(acc, shard):
     kind = shard[0]
     if kind == "prop":
-        _, okind, attr, std, alias, values = shard
+        _, okind, attr, std, alias, values = shard[:6]
+        mixed = shard[6] if len(shard) > 6 else None
         layer = f"{okind}.{attr}" if alias else f"{okind} non-aliased properties"
-        n = explore_property(acc, okind, attr, std, alias, values, layer, bare_start=bool(alias))
+        n = explore_property(acc, okind, attr, std, alias, values, layer, bare_start=bool(alias), mixed=mixed)
+        if mixed:
+            acc.outcome("stored key that looks structural (NOTEDATA in a chart)")
         if alias:
             acc.sample(layer, {"object": okind, "attr": attr, "std": std, "alias": alias, "values": list(values), "model_states": n})
         acc.count("properties_explored")
@@ -756,6 +767,9 @@ def explore(run):
             # transition tour on one live object: every aliased property, and (quick) one plain property per class
             if alias or run.thorough() or attr in ("title", "stepstype", "credit"):
                 shards.append(("tour", okind, attr, std, alias, values))
+    # an unrelated key that looks structural: a stored key NOTEDATA in an SSC chart is a key like any other
+    shards.append(("prop", "SSCChart", "credit", "CREDIT", None, values, "NOTEDATA"))
+    shards.append(("prop", "SSCChart", "notes", "NOTES", "NOTES2", ("p", ""), "NOTEDATA"))
     svals = ("p", "") if not run.thorough() else ("p", "q", "")
     shards.append(("smchart", svals, "from_msd", ["a", "b", "c", "d", "e", "f"]))
     shards.append(("smchart", ("p", ""), "blank", [dict.get(SMChart.blank(), k) for k in FIELDS]))
@@ -778,6 +792,7 @@ def explore(run):
     ]
     core.require(acc.outcomes["attribute access through the alias"] > 0, "alias path not exercised")
     core.require(acc.outcomes["transition tour on one live object"] > 0, "no transition tour")
+    core.require(acc.outcomes["stored key that looks structural (NOTEDATA in a chart)"] > 0, "NOTEDATA never stored as a key")
     core.require(acc.outcomes["attribute access with both spellings present"] > 0, "both-spellings states not reached")
     core.require(acc.outcomes["attribute access with another class's alias key present"] > 0, "foreign alias key never present")
     core.require(acc.outcomes["attempt to add a key to an SM chart"] > 0, "no add attempt")
